@@ -122,6 +122,8 @@ pub struct View<'a> {
     pub open_upvalues: *mut CaoLangObject,
     pub memory: &'a AllocProxy,
     pub has_current_program: bool,
+    /// bytecode of the program being run, if any
+    pub bytecode: Option<&'a [u8]>,
 }
 
 impl RuntimeData {
@@ -145,6 +147,7 @@ impl RuntimeData {
             open_upvalues: self.open_upvalues,
             memory: &self.memory,
             has_current_program: !self.current_program.is_null(),
+            bytecode: unsafe { self.current_program.as_ref().map(|p| p.bytecode.as_slice()) },
         }
     }
 
